@@ -109,7 +109,7 @@ def get(cfgs):
                 sys.stderr.write("[facts] cfg %s extracted in %.1fs\n" % (c, time.time() - t0))
         # prune old fact dirs (keep the 4 most recent)
         ds = sorted(glob.glob(os.path.join(CACHE, "facts-*")), key=os.path.getmtime, reverse=True)
-        for old in ds[4:]:
+        for old in ds[10:]:
             if old != d:
                 shutil.rmtree(old, ignore_errors=True)
         os.utime(d)
